@@ -19,4 +19,5 @@ PROPERTY RefinesEmbedded
 PROPERTY ReadOnlyRejectsMutators
 PROPERTY ApplyWorks
 PROPERTY NodeInfoTruthful
+PROPERTY StopKeepsMode
 CHECK_DEADLOCK FALSE
